@@ -6,6 +6,9 @@ Extension of the structural CCSDS model (`Model/Ccsds.lean`, where every date is
 * `Stamp`     — a date = a clock reading labelled with a time scale; a message has ONE `TIME_SYSTEM`, the readers label every
                 date of the message with it.  Whether the writers convert a secondary date (maneuver, ephemeris point,
                 observation) to that scale before printing its clock is read from the source (`…ScaleConv`, regenerated).
+* `segsBack`  — a message of several segments (OEM ephemerides, TDM signal paths), each with its own `TIME_SYSTEM` (the scale of its
+                first date): in which scale the dates of a segment are printed — the segment's or the whole message's — is read
+                from the source (`…ScaleOfSegment`, regenerated).
 * `ManSrc`    — `ContinuousMan(date, duration, date_pos=…)`: `start / median / stop` as `man.py` computes them; which attribute
                 the OPM writers print as `MAN_EPOCH_IGNITION` (`manIgnitionAttr`) and with which `date_pos` the readers rebuild
                 the maneuver (`manReadDatePos`) are regenerated from the source.
@@ -39,6 +42,29 @@ def written (conv : Bool) (off : String → Int) (msg : String) (s : Stamp) : In
 
 /-- the readers: `parse_date(text, TIME_SYSTEM)` -/
 def readBack (msg : String) (clock : Int) : Stamp := ⟨clock, msg⟩
+
+/-! ### messages made of several segments (OEM: one per ephemeris, TDM: one per signal path)
+
+Every segment has its own `TIME_SYSTEM`: the scale of its first date (`collect_metadata` / `dump_*_meta_odm`: `….start.scale.name`).
+The dates of a segment are printed after conversion to a *reference* scale; whether that reference is the label of the segment itself
+or the scale of the first date of the whole message is read from the source (`…ScaleOfSegment`, regenerated). -/
+
+/-- `TIME_SYSTEM` of a segment: the scale of its first date -/
+def segLabel (seg : List Stamp) : String := (seg.head?.map (·.scale)).getD ""
+
+/-- `data.start.scale` of the whole message: the scale of the first date of the first segment -/
+def msgLabel (segs : List (List Stamp)) : String := segLabel (segs.head?.getD [])
+
+/-- one segment as written: its `TIME_SYSTEM` and the clock readings printed; `ofSegment` = the reference scale is the segment's own label -/
+def writeSeg (conv ofSegment : Bool) (off : String → Int) (msg : String) (seg : List Stamp) : String × List Int :=
+  (segLabel seg, seg.map (written conv off (if ofSegment then segLabel seg else msg)))
+
+/-- the readers: every date of a segment is `parse_date(text, TIME_SYSTEM of that segment)` -/
+def readSeg (w : String × List Int) : List Stamp := w.2.map (readBack w.1)
+
+/-- dump then load of a message of several segments -/
+def segsBack (conv ofSegment : Bool) (off : String → Int) (segs : List (List Stamp)) : List (List Stamp) :=
+  segs.map fun seg => readSeg (writeSeg conv ofSegment off (msgLabel segs) seg)
 
 /-! ### continuous maneuvers: `ContinuousMan.__init__` -/
 
